@@ -71,7 +71,9 @@ ReturnWhy(obs) ==
   ELSE "ok"
 
 \* the run truncated at k iterations (same start, stoptol = 0): k sweeps, calls extend the previous
-\* truncation, fit does not decrease
+\* truncation, fit does not decrease.  `fit` is reported through the squared relative residual, -(1 - fit)^2 in units
+\* of 1e-9 (monotone in the fit; near an exact fit the residual itself carries an absolute error of sqrt(eps) ||X||,
+\* its square one of eps ||X||^2)
 TruncWhy(k, cs, fit) ==
   IF Len(cs) # k * Len(Eff(cfg)) THEN "truncated-run-length"
   ELSE IF trunc.k > 0 /\ k = trunc.k + 1 /\ ~IsPrefix(trunc.calls, cs) THEN "truncated-runs-not-prefix-consistent"
